@@ -37,6 +37,10 @@ impl Comment {
         buf.do_indent_no_nl();
         buf.add_str("/*");
         match indent.cmp(&existing) {
+            // There is no indentation to adjust to in compressed format.
+            _ if buf.format().is_compressed() => {
+                buf.add_str(&self.0);
+            }
             Ordering::Greater => {
                 let start = buf.format().get_indent(indent - existing);
                 buf.add_str(&self.0.replace('\n', &start));
